@@ -29,7 +29,18 @@ def evaluate(expr, env):
         return (evaluate(v.value, env) >> v.start) & ((1 << (v.stop - v.start)) - 1)
     if isinstance(v, A.Operator) and v.operator in ("u", "s") and len(v.operands) == 1:
         return evaluate(v.operands[0], env)
-    raise NotImplementedError(f"stub cannot evaluate {type(v).__name__}")
+    if isinstance(v, A.Operator):
+        ops = [evaluate(o, env) for o in v.operands]
+        mask = (1 << len(v)) - 1
+        if v.operator in ("b", "r|") and len(ops) == 1:
+            return int(ops[0] != 0)
+        if v.operator == "~" and len(ops) == 1:
+            return ~ops[0] & mask
+        if v.operator in ("&", "|", "^") and len(ops) == 2 and not any(o.shape().signed for o in v.operands):
+            return {"&": ops[0] & ops[1], "|": ops[0] | ops[1], "^": ops[0] ^ ops[1]}[v.operator] & mask
+        if v.operator == "==" and len(ops) == 2 and not any(o.shape().signed for o in v.operands):
+            return int(ops[0] == ops[1])
+    raise NotImplementedError(f"stub cannot evaluate {type(v).__name__} {getattr(v, 'operator', '')}")
 
 
 def present(expr, intval):
@@ -47,6 +58,15 @@ class StubTick:
 
     def until(self, cond):
         return StubTick(self.sim, self.samples, cond)
+
+    def __aiter__(self):
+        return self
+
+    async def __anext__(self):
+        try:
+            return await self
+        except EndOfScript:
+            raise StopAsyncIteration
 
     def __await__(self):
         while True:
